@@ -230,10 +230,16 @@ def r3_leaf_and_root(ctx, outs, key):
     rets = [o for o in couts if o.kind == 'return']
     okroot = False
     found = None
+    # values captured by the root closure, as the parent had them when it built the closure
+    snaps = ()
+    for o in c07.search_outcomes(ctx):
+        for e in o.events:
+            if e[0] == 'closure' and e[1] == clo:
+                snaps = e[2]
     for o in rets:
         rec = [e for e in o.events if e[0] == 'call' and e[1] == MINIMAX]
         if len(rec) == 1:
-            a = rec[0][2]
+            a = tuple(subst_upvars(x, snaps) for x in rec[0][2])
             found = [show(x) for x in a[3:]]
             d_ok = a[3][0] == 'bin' and a[3][1] == 'Sub' and a[3][3] == C(1) and any(s[0] == 'call' and s[1].endswith('::search_depth') for s in subterms(a[3]))
             okroot = d_ok and a[4] == C(I16MIN) and a[5] == C(I16MAX) and a[6][0] == 'un' and a[6][1] == 'Not'
